@@ -514,7 +514,7 @@ pub fn dt_round_case() -> BoxedStrategy<PubCase> {
         .boxed()
 }
 
-fn pub_case() -> BoxedStrategy<PubCase> {
+pub fn pub_case() -> BoxedStrategy<PubCase> {
     let base = PubCase { op: Op::TimeRound, a: 0, a_day: 0, b: 0, b_day: 0, unit: U::Second, inc: 1, mode: Mode::Trunc, digits: None, offset_min: 0 };
     // (unit, inc) admissible for plain rounding / differences
     let unit_inc = time_unit().prop_flat_map(|u| (Just(u), proptest::sample::select(incs_for(u))));
